@@ -34,10 +34,16 @@ CHECK = {
            'assign/concat/append/rem from 8 sources, resize 0..6, print_to: no free/realloc may see the object or its item array / buffer; after an '
            'exception the receiver is slot for slot (byte for byte) what it was, after a normal return it is untouched or holds exactly the result '
            'computed from the source\'s own iteration, reached in place (nontrivial there = distinct cases that were refused or done in place). '
+           'copy(x) is taken of originals of every allocation class (heap, $ stack literal, Array/List element, Table/Tree value and key, static) '
+           'for every type with and without an Assign instance: the copy must carry the heap tag, be registered with the collector '
+           '(mem(current(GC), c); raw objects must not be), del must release it exactly once; drop-and-collect drops the only reference to a '
+           'collector-managed object and forces collections: nothing may raise, a release happens at most once with what the object owns. '
+           'Whether copy() of a kind of original works at all is asked once per kind in a forked child (a failed copy leaves garbage whose '
+           'destructor raises inside a sweep). '
            'Collector-managed heap objects additionally: del / del_root between stop(gc) and start(gc) in a forked child - a freed block must not '
            'stay registered, a registered block must not have been freed'),
   'bounds': {
-    'quick': 'containers of length 1 and 3 (first/last position), views over Array and List of length 1 and 3, 30 static objects, 21 types, 22 operations; stack-tuple grid with source lengths 0,1,3; gcc and clang ASan+UBSan builds of the whole grid',
+    'quick': 'containers of length 1 and 3 (first/last position), views over Array and List of length 1 and 3, 30 static objects, 21 types, 23 operations; stack-tuple grid with source lengths 0,1,3; gcc and clang ASan+UBSan builds of the whole grid',
     'thorough': 'containers of length 1..8 at every position, five ways of building the container, views over Array and List of length 1..6 at every position; stack-tuple grid with source lengths 0..3; gcc and ASan+UBSan builds of the whole grid',
   },
   'assumptions': [
